@@ -161,7 +161,16 @@ class ForEachBlockPass(BasePass):
         # Get the callable replacement filter
         if isinstance(self.replace_filter, str):
             method = self.replace_filter
-            replace_filter = gen_replace_filter(method, data.model)
+            # The circuit's qudits sit on data.placement: judge blocks
+            # against the connectivity of those qudits, as the sub-models
+            # handed to the body are.
+            placed_model = MachineModel(
+                circuit.num_qudits,
+                data.connectivity,
+                data.gate_set,
+                circuit.radixes,
+            )
+            replace_filter = gen_replace_filter(method, placed_model)
         else:
             replace_filter = self.replace_filter
 
